@@ -689,15 +689,32 @@ class Inventory:
         self.finish_instances()
 
     def find_runtime_instantiations(self):
-        """`<persistent binding> = C(...)` inside a function: C has persistent instances."""
+        """`<persistent binding> = C(...)` inside a function: C has persistent instances.  Also through ONE local
+        variable of the same function: `x = C(...)` ... `<persistent binding> = x` (the instance is built in a local
+        and published afterwards); flow-insensitive, so an over-approximation."""
         for m in self.mods.values():
             for cls_node in [n for n in ast.walk(m.tree) if isinstance(n, ast.ClassDef)]:
                 for fn in [n for n in cls_node.body if isinstance(n, (ast.FunctionDef, ast.AsyncFunctionDef))]:
                     a = fn.args.posonlyargs + fn.args.args
                     first = a[0].arg if a else None
                     is_cm = any(ast.unparse(d) == 'classmethod' for d in fn.decorator_list)
+
+                    def class_of_call(call, first=first, is_cm=is_cm, cls_node=cls_node, m=m):
+                        f = call.func
+                        if is_cm and isinstance(f, ast.Name) and f.id == first:
+                            return m.name + '.' + cls_node.name
+                        return self.resolve_class(m, f)
+                    # locals holding a freshly created instance:  x = C(...)
+                    local_inst = {}
                     for s in ast.walk(fn):
                         if isinstance(s, ast.Assign) and isinstance(s.value, ast.Call):
+                            c = class_of_call(s.value)
+                            for t in s.targets:
+                                if c and isinstance(t, ast.Name):
+                                    local_inst.setdefault(t.id, c)
+                    for s in ast.walk(fn):
+                        if isinstance(s, ast.Assign) and (isinstance(s.value, ast.Call) or
+                                                          (isinstance(s.value, ast.Name) and s.value.id in local_inst)):
                             for t in s.targets:
                                 if isinstance(t, ast.Attribute) and isinstance(t.value, ast.Name):
                                     root = t.value.id
@@ -705,24 +722,38 @@ class Inventory:
                                         or (m.imports.get(root, ('',))[0] in ('module', 'object'))
                                     if not persistent_target:
                                         continue
-                                    f = s.value.func
-                                    if is_cm and isinstance(f, ast.Name) and f.id == first:
-                                        c = m.name + '.' + cls_node.name
+                                    if isinstance(s.value, ast.Call):
+                                        c = class_of_call(s.value)
+                                        via = ''
                                     else:
-                                        c = self.resolve_class(m, f)
+                                        c = local_inst[s.value.id]
+                                        via = f' (through the local {s.value.id})'
                                     if c:
                                         self.persistent_classes.setdefault(
-                                            c, f'instantiated into {ast.unparse(t)} in {m.name}.{cls_node.name}.{fn.name}')
+                                            c, f'instantiated into {ast.unparse(t)} in {m.name}.{cls_node.name}.{fn.name}' + via)
             for fn in [n for n in m.tree.body if isinstance(n, (ast.FunctionDef, ast.AsyncFunctionDef))]:
                 glob = {x for g in ast.walk(fn) if isinstance(g, ast.Global) for x in g.names}
+                local_inst = {}
                 for s in ast.walk(fn):
                     if isinstance(s, ast.Assign) and isinstance(s.value, ast.Call):
                         c = self.resolve_class(m, s.value.func)
                         for t in s.targets:
-                            if c and ((isinstance(t, ast.Name) and t.id in glob) or
-                                      (isinstance(t, ast.Attribute) and isinstance(t.value, ast.Name)
-                                       and (m.defs.get(t.value.id) == 'class' or m.imports.get(t.value.id, ('',))[0] in ('module', 'object')))):
-                                self.persistent_classes.setdefault(c, f'instantiated into {ast.unparse(t)} in {m.name}.{fn.name}')
+                            if c and isinstance(t, ast.Name) and t.id not in glob:
+                                local_inst.setdefault(t.id, c)
+                for s in ast.walk(fn):
+                    if isinstance(s, ast.Assign) and isinstance(s.value, ast.Call):
+                        c = self.resolve_class(m, s.value.func)
+                        via = ''
+                    elif isinstance(s, ast.Assign) and isinstance(s.value, ast.Name) and s.value.id in local_inst:
+                        c = local_inst[s.value.id]
+                        via = f' (through the local {s.value.id})'
+                    else:
+                        continue
+                    for t in s.targets:
+                        if c and ((isinstance(t, ast.Name) and t.id in glob) or
+                                  (isinstance(t, ast.Attribute) and isinstance(t.value, ast.Name)
+                                   and (m.defs.get(t.value.id) == 'class' or m.imports.get(t.value.id, ('',))[0] in ('module', 'object')))):
+                            self.persistent_classes.setdefault(c, f'instantiated into {ast.unparse(t)} in {m.name}.{fn.name}' + via)
 
     def finish_instances(self):
         """instance fields of classes with persistent instances become bindings"""
